@@ -10,7 +10,7 @@ where
     N: Rem<Output = N> + Zero + Display + Copy + PartialEq + 'static,
 {
     let value = value.as_();
-    if !value.is_zero() && value % n == N::zero() {
+    if !value.is_zero() && !n.is_zero() && value % n == N::zero() {
         Ok(())
     } else {
         Err(format!("the value must be a multiple of {}.", n).into())
